@@ -208,6 +208,17 @@ def main():
         except subprocess.TimeoutExpired:
             rc, out = 124, 'harness timed out'
         log.append(out[-4000:])
+        if not os.path.exists(out_json) and broken and '--no-model' not in cmd and rc != 124:
+            # an obligation broke and the harness died (typically: the generated model of the changed source is missing or does
+            # not compile, so nothing can be evaluated inside Coq): search for a failing input with the direct oracles alone
+            first_crash = out[-600:]
+            try:
+                rc, out = sh(cmd + ' --no-model' + ('' if '--search' in cmd else ' --search'), timeout=budget)
+            except subprocess.TimeoutExpired:
+                rc, out = 124, 'harness timed out'
+            log.append(out[-4000:])
+            if os.path.exists(out_json):
+                broken.append(f'harness {harness} could not evaluate the model ({first_crash.strip()[-200:]}); it was re-run with the direct oracles only')
         if os.path.exists(out_json):
             h1 = json.load(open(out_json))
             hres['evaluations'] += h1.get('evaluations', 0)
